@@ -538,7 +538,8 @@ class Built:
         self.classes = {}
         self.hash2name = {}
         for d in prog["lib"]:
-            cls = self._make(Component, d, rec)
+            base = self.classes[d["base"]] if d.get("base") else Component
+            cls = self._make(base, d, rec)
             registry.register(d["name"], cls)
             self.names.append(d["name"])
             self.classes[d["name"]] = cls
@@ -579,7 +580,7 @@ class Built:
         attrs = {"template": src, "get_context_data": get_context_data, "on_render_before": on_render_before,
                  "on_render_after": on_render_after, "__module__": "harness.tplgen"}
         attrs.update(d.get("pyattrs", {}))
-        return type("Gen_" + d["name"], (Component,), attrs)
+        return type(d.get("clsname") or ("Gen_" + d["name"]), (Component,), attrs)
 
     def close(self):
         for n in self.names:
